@@ -167,6 +167,10 @@ func isReadMethod(methodName string, destPkgName string) bool {
 
 func findAssignedFieldPaths(funcDecl *ast.FuncDecl, v string) []string {
 	var fieldPath []string
+	if funcDecl.Body == nil {
+		//declared without a body (implemented elsewhere): nothing to look at
+		return nil
+	}
 	ast.Inspect(funcDecl.Body, func(n ast.Node) bool {
 		if assign, ok := n.(*ast.AssignStmt); ok {
 			for _, lhs := range assign.Lhs {
